@@ -36,6 +36,10 @@ func hx(s string) string { return hex.EncodeToString([]byte(s)) }
 
 var gens = map[string]func(e *emitter, tier string, seed int64){}
 
+// the property whose generator is running (a generator reused by another property may leave out
+// families that only its own specification judges)
+var propName string
+
 func main() {
 	tier := flag.String("tier", "quick", "quick|thorough")
 	seed := flag.Int64("seed", 1, "PRNG seed")
@@ -58,6 +62,7 @@ func main() {
 		oracleMain()
 		return
 	}
+	propName = flag.Arg(0)
 	g, ok := gens[flag.Arg(0)]
 	if !ok {
 		fmt.Fprintln(os.Stderr, "unknown property", flag.Arg(0))
